@@ -6,6 +6,7 @@ package main
 // the model computes for it alone, and the pool hook must see no buffer or compressor shared.
 
 import (
+	"runtime"
 	"encoding/hex"
 	"encoding/json"
 	"math/rand/v2"
@@ -45,6 +46,12 @@ func init() {
 			ts[i] = t
 		}
 		out := make([]string, len(scs))
+		// every other group runs on a single processor: all its goroutines then share one per-P cache of
+		// every sync.Pool, so an object that was put back twice is handed to two of them
+		concGroups++
+		if concGroups%2 == 0 {
+			defer runtime.GOMAXPROCS(runtime.GOMAXPROCS(1))
+		}
 		vanguard.VerifPoolTrace(true)
 		var wg sync.WaitGroup
 		start := make(chan struct{})
@@ -61,6 +68,16 @@ func init() {
 		trace, viol := vanguard.VerifPoolTrace(false)
 		lastPoolTrace = trace
 		viol = append(viol, takeFakeViolations()...)
+		if concGroups%2 == 0 {
+			// (single-processor group: everything that was put back is in this processor's pool cache)
+			seenT := map[*vanguard.Transcoder]bool{}
+			for _, t := range ts {
+				if !seenT[t] {
+					seenT[t] = true
+					viol = append(viol, t.VerifPoolDuplicates(48)...)
+				}
+			}
+		}
 		sort.Strings(viol)
 		pool := "ok"
 		if len(viol) > 0 {
@@ -110,6 +127,8 @@ func init() {
 		return "exclusive"
 	}
 }
+
+var concGroups int
 
 func streamConc(e *Emitter, rng *rand.Rand, tier string) {
 	n := 250
